@@ -17,7 +17,7 @@ from pbt.netgen import q
 ID = "C29"
 LEVEL = "exploration"
 EXAMPLES = {"quick": 8000, "thorough": 160000}
-DEADLINE_S = {"quick": 240, "thorough": 3000}
+DEADLINE_S = {"quick": 900, "thorough": 3600}   # generous: the machine is shared (cap hit => inconclusive, never a violation)
 RULE = ("A case is one device plus 10-40 currents. Fuses: all 31 built-in std types x curve_select x scenario are enumerated "
         "with a dense current grid (every support point x {1, 1+-1e-9, 1+-1e-4, 0.5, 2}, below start, above stop, log grid); "
         "Hypothesis draws std types and generated (I, t) point sets (2-10 points, I strictly increasing, t non-increasing "
